@@ -146,8 +146,16 @@ def run_flow(cfg, parallel_mode=None, root_dir=None):
     ts = build_test_setting(cfg)
 
     def go(d):
+        # the test settings as list / tuple / one-shot iterator (the flow iterates them once), decided by the configuration
+        import hashlib
+        import os
+
+        h = hashlib.sha256(repr(sorted((k, repr(v)) for k, v in cfg.items())).encode()).digest()[0] % 4
+        if os.environ.get("VERIF_REPS", "1") == "0":
+            h = 0
+        settings = [ts] if h <= 1 else ((ts,) if h == 2 else iter([ts]))
         return execute_simulation_test_settings(
-            [ts], d, pdf_mode="none", exec_sim_check=exec_check_of(cfg), parallel_mode=parallel_mode
+            settings, d, pdf_mode="none", exec_sim_check=exec_check_of(cfg), parallel_mode=parallel_mode
         )
 
     if root_dir is not None:
